@@ -63,6 +63,17 @@ def gen_case(g):
     case = {"fn": rng.choice(FUNCS), "operands": ops}
     if rng.random() < 0.08:
         case["prefix"] = rng.choice(["var", "x", "zz"])
+    if ops[0]["k"] == "poly" and rng.random() < 0.12:
+        case["relative"] = rng.choice(["T", "T", "newaxis"])
+        ops[0].pop("view", None)
+    if rng.random() < 0.06:
+        # unsigned 64-bit coefficients beyond 2**53 (exact only as integers)
+        for spec in ops:
+            if spec["k"] == "poly" and spec["kind"] == "int":
+                spec["dtype"] = "uint64"
+                spec["coefs"] = [G.nested_map(
+                    lambda v: rng.choice([2 ** 53 + 1, 2 ** 64 - 1, 2 ** 63 + 5]) if v else 0, c)
+                    for c in spec["coefs"]]
     if count >= 2 and rng.random() < 0.2:
         case["pre"] = rng.choice(["align_exponents", "align_indeterminants", "align_exponents"])
     if rng.random() < 0.3:
@@ -140,6 +151,19 @@ def run_case(case, ctx):
         real.append(built[key])
     mods = [G.model(s) for s in specs]
     feats = [G.spec_features(s) for s in specs]
+    relative = case.get("relative")
+    if relative and real and isinstance(real[0], numpoly.ndpoly) and real[0].ndim >= 1:
+        # a second operand that is a view of the first one (its transpose / a reshape): same
+        # storage, same key and name objects, another shape
+        ctx.count("relative_operands")
+        if relative == "T":
+            view, vmod = real[0].T, mods[0].T
+        else:
+            view, vmod = real[0].reshape(real[0].shape + (1,)), mods[0].reshape(mods[0].shape + (1,))
+        specs = list(specs) + [dict(specs[0], shape=list(vmod.shape))]
+        real.append(view)
+        mods.append(vmod)
+        feats.append(dict(feats[0], shape=tuple(vmod.shape)))
     try:
         common = numpy.broadcast_shapes(*[m.shape for m in mods])
     except ValueError:
